@@ -620,13 +620,6 @@ def next_psuedo_matches(state: TokenizerState) -> TokenInfo | None:
             # at the level of the field itself a colon starts the format spec, also the one of ':=' ('{x:=^10}')
             token, end = ":", start + 1
             epos, state.pos = (state.lnum, end), end
-            depth = 0  # format specs already open in this f-string (a nested f-string counts for itself)
-            for prog in reversed(state.end_progs):
-                if isinstance(prog.mode, ModeMiddle):
-                    break
-                depth += isinstance(prog.mode, ModeInColon)
-            if depth >= 2:
-                raise TokenError("f-string: expressions nested too deeply", spos)
             state.add_prog(
                 start + 1,
                 end,
@@ -687,6 +680,13 @@ def handle_fstring_progs(state: TokenizerState, endprog: EndProg) -> Generator[T
         if (middle_end > state.pos) or endprog.has_text():  # has buffer
             yield state.prog_token(middle_end, Token.FSTRING_MIDDLE)
         if endmatch.lastgroup == "LBrace":
+            depth = 0  # format specs open in this f-string (a nested f-string counts for itself)
+            for prog in reversed(state.end_progs):
+                if isinstance(prog.mode, ModeMiddle):
+                    break
+                depth += isinstance(prog.mode, ModeInColon)
+            if depth > 2:
+                raise TokenError("f-string: expressions nested too deeply", (state.lnum, end - 1))
             yield TokenInfo(
                 Token.OP,
                 "{",
